@@ -175,7 +175,10 @@ def eval (F : FloatOps) : Expr → Res
      | r => r)
   | .binary op l r =>
     (match op.toOp with
-     | none => .outside
+     | none =>
+       -- a token that is no operator of the language (`>>>`, `**`, `in`, `instanceof`, `??`, `===`-less forms are mapped):
+       -- such an expression must be refused, it denotes nothing
+       .illTyped
      | some _ =>
        match eval F l, eval F r with
        | .val a, .val b => binary F op a b
